@@ -88,7 +88,7 @@ pub fn apply_model(m: &mut RefStore, op: Op, val_tag: &str, key_len: usize) -> E
             Expect::Res(Res::Ok)
         }
         // every acknowledged byte is in its file: content-wise a kill inside the process is a restart
-        Op::KillRst => {
+        Op::KillRst | Op::RstOtherHashers => {
             m.restart(false);
             Expect::Res(Res::Ok)
         }
